@@ -3,10 +3,13 @@ package vc
 import (
 	"fmt"
 	"go/types"
+	"regexp"
 	"strings"
 
 	"golang.org/x/tools/go/ssa"
 )
+
+var trackRe = regexp.MustCompile(`\b(ncalls|lastres|lastarg)\(\s*([A-Za-z_][A-Za-z0-9_$]*)`)
 
 func modeOf(arith, floats string) Mode {
 	return Mode{BV: arith == "bv", FPOrder: floats == "order"}
@@ -40,6 +43,18 @@ func (e *Engine) VerifyFunc(b Bound) (u *Unit) {
 		}
 	}()
 	u.regKey(allocKey, "Int")
+	for _, cl := range append(append([]Clause{}, c.Requires...), c.Ensures...) {
+		for _, m := range trackRe.FindAllStringSubmatch(cl.Src, -1) {
+			u.trackCalls[m[2]] = true
+		}
+	}
+	for _, ls := range c.Loops {
+		for _, cl := range ls.Invariants {
+			for _, m := range trackRe.FindAllStringSubmatch(cl.Src, -1) {
+				u.trackCalls[m[2]] = true
+			}
+		}
+	}
 	fr := u.newFrame(fn, 0, nil)
 	fr.top = true
 	fr.contract = c
@@ -294,7 +309,8 @@ func (e *Engine) frameObligations(u *Unit, fr *frame, c *Contract, fn *ssa.Funct
 			if strings.HasPrefix(k, "whole|") || strings.HasPrefix(k, "ref|") || k == allocKey || k == "*" {
 				continue
 			}
-			if strings.HasPrefix(k, "cell.") || strings.HasPrefix(k, "iter.") || strings.HasPrefix(k, "Blk.") || strings.HasPrefix(k, "Held.local.") {
+			if strings.HasPrefix(k, "cell.") || strings.HasPrefix(k, "iter.") || strings.HasPrefix(k, "Blk.") || strings.HasPrefix(k, "Held.local.") ||
+				strings.HasPrefix(k, "Calls.") || strings.HasPrefix(k, "Arg.") || strings.HasPrefix(k, "Res.") {
 				continue
 			}
 			written[k] = true
